@@ -26,7 +26,7 @@ meta.update({
     "id": "%s-%s" % (P, V),
     "origin": "independent sub-agent given only the property text and a scratch worktree of /repo (HEAD incl. the fix: commits)",
     "confirmed_by_me": {
-        "how": "tools/confirm_seed.sh %s %s in the scratch worktree: git apply patch.diff; cargo nextest run --workspace --no-fail-fast --test-threads 8 --offline; copy demo into dropshot/tests; cargo nextest run -p dropshot --test demo_variant_%s; git checkout; same demo again" % (P, V, lc),
+        "how": "tools/confirm_seed.sh %s %s in the scratch worktree: git apply patch.diff; cargo nextest run --workspace --no-fail-fast --test-threads 8 --offline; copy demo into dropshot/tests; cargo nextest run -p dropshot --test <demo file name>; git checkout; same demo again (the suite is retried, unchanged, when only the known fixed-port example tests collide with other suites running on the machine)" % (P, V),
         "suite_with_change": conf["suite_summary"],
         "demo_with_change_rc": conf["demo_with_change_rc"],
         "demo_without_change_rc": conf["demo_without_change_rc"],
